@@ -66,6 +66,28 @@ Mid2(r) == <<r[1] + r[3], r[2] + r[4]>>
 EntirelyOutside(r, P) == /\ \A i \in 1..Len(P) : ~SegMeetsRect(r, PEdges(P)[i])
                          /\ Wind(PEdges(ScalePath(P, 2)), Mid2(r)) = 0
 
+(* ------------------------------------------------------------------ class C08-S1 (known finding, see known_findings.json) *)
+(* the closed segment a-b has a point strictly inside the rectangle (rational clipping parameters <<n, d>>, d > 0) *)
+RLess(x, y) == x[1] * y[2] < y[1] * x[2]
+RMaxQ(x, y) == IF RLess(x, y) THEN y ELSE x
+RMinQ(x, y) == IF RLess(x, y) THEN x ELSE y
+AxisOpen(a, b, lo, hi) ==           \* <<enter, exit, feasible>> of lo < a + t (b - a) < hi
+  IF b > a THEN << <<lo - a, b - a>>, <<hi - a, b - a>>, TRUE >>
+  ELSE IF b < a THEN << <<a - hi, a - b>>, <<a - lo, a - b>>, TRUE >>
+  ELSE << <<0, 1>>, <<1, 1>>, lo < a /\ a < hi >>
+EntersInterior(r, e) ==
+  LET X == AxisOpen(e[1][1], e[2][1], r[1], r[3])  Y == AxisOpen(e[1][2], e[2][2], r[2], r[4])
+      t0 == RMaxQ(RMaxQ(<<0, 1>>, X[1]), Y[1])
+      t1 == RMinQ(RMinQ(<<1, 1>>, X[2]), Y[2])
+  IN X[3] /\ Y[3] /\ (RLess(t0, t1) \/ (e[1] = e[2] /\ InStrict(r, e[1])))
+(* P (simple, with an edge along a side) never enters the interior of the rectangle, does not wind round it, and yet passes through all four corners: the library then *)
+(* takes the rectangle to be enclosed (Path1ContainsPath2 counts no corner as outside) and returns it                               *)
+CornersOnPath(r, P) ==
+  LET E == PEdges(P)
+  IN /\ \A c \in {<<r[1], r[2]>>, <<r[3], r[2]>>, <<r[3], r[4]>>, <<r[1], r[4]>>} : OnAny(E, c)
+     /\ \A i \in 1..Len(E) : ~EntersInterior(r, E[i])
+     /\ Wind(PEdges(ScalePath(P, 2)), Mid2(r)) = 0
+
 (* ------------------------------------------------------------------ Fam *)
 (* clearance (working units) that guarantees "farther than 2 real units": exact embeddings 2, coarse 1 *)
 TolOf(ev) == IF ev.coarse = 1 THEN 1 ELSE 2
@@ -127,6 +149,7 @@ Analyse(P) ==
       simple == Simple(P)  along == AlongSide(fam.rect, P)
       clr == [i \in 1..Len(pts) |-> fam.inner[i] /\ \A j \in 1..Len(E) : FarSegL(pts[i], E[j][1], E[j][2], t, len2[j], L[j])]
   IN [ P |-> P, simple |-> simple, along |-> along,
+       s11 |-> simple /\ along /\ CornersOnPath(fam.rect, P),
        inside |-> AllInside(fam.rect, P), outside |-> EntirelyOutside(fam.rect, P), sgn |-> Sgn(Area2(P)),
        w |-> [i \in 1..Len(pts) |-> IF fam.inner[i] THEN Wind(E, pts[i]) ELSE 0],
        clr |-> clr,
@@ -142,11 +165,13 @@ CasePost(ev, a) ==
   LET bad == WindBad(a.simple, a.along, a.w, a.clr, ev.cover)
   IN /\ VertexClauses(ev.vm, ev.id)
      /\ OuterClause(ev.cover, ev.id)
-     /\ Chk(bad = {}, "C08", IF a.simple THEN "winding_simple" ELSE "winding_parity", IF bad = {} THEN ev.id ELSE fam.pts[CHOOSE i \in bad : TRUE])
+     /\ Chk(bad = {}, "C08", IF a.s11 THEN "winding_simple_corners_on_path" ELSE IF a.simple THEN "winding_simple" ELSE "winding_parity",
+            IF bad = {} THEN ev.id ELSE fam.pts[CHOOSE i \in bad : TRUE])
      /\ (a.inside => Chk(ev.same = 1, "C08", "inside_path_changed", ev.id))
      /\ (a.outside => Chk(ev.n = 0, "C08", "outside_path_not_dropped", ev.id))
      \* orientation: judged for result paths whose area is at least twice what one-unit rounding of their vertices could change
-     /\ (a.simple => Chk(\A k \in 1..Len(ev.asg) : ev.aq[k] < 2 \/ ev.asg[k] = a.sgn, "C08", "orientation", ev.id))
+     \* (in class C08-S1 a result that should not exist at all has no orientation to judge: the winding clause above reports it)
+     /\ ((a.simple /\ ~(a.s11 /\ bad # {})) => Chk(\A k \in 1..Len(ev.asg) : ev.aq[k] < 2 \/ ev.asg[k] = a.sgn, "C08", "orientation", ev.id))
 
 (* a raw result with a vertex far outside the family's range (the harness clamps such coordinates) is judged by the measurements only *)
 RawSmall(Q) == \A k \in 1..Len(Q) : \A i \in 1..Len(Q[k]) : SmallPt(Q[k][i])
@@ -158,9 +183,9 @@ TCase ==
   /\ IF ~PathOK(Ev.P) THEN hist' = <<>> /\ UNCHANGED <<cur, stat>> /\ Note("DROP", Ev.id)
      ELSE /\ cur' = Analyse(Ev.P)            \* evaluated once; every clause below reads cur'
           /\ hist' = IF Ev.b = 1 THEN Append(hist, cur') ELSE <<>>
-          \* measured census of what was judged: cases, simple, edge-along-a-side, all inside, entirely outside, judged points, batches
+          \* measured census of what was judged: cases, simple, edge-along-a-side, all inside, entirely outside, judged points, batches, class C08-S1
           /\ stat' = << stat[1] + 1, stat[2] + B(cur'.simple), stat[3] + B(cur'.along), stat[4] + B(cur'.inside),
-                        stat[5] + B(cur'.outside), stat[6] + cur'.njudged, stat[7] >>
+                        stat[5] + B(cur'.outside), stat[6] + cur'.njudged, stat[7], stat[8] + B(cur'.s11) >>
           /\ ((fam.exact /\ RawSmall(Ev.raw)) => Chk(RawOK(Ev, {Ev.P[i] : i \in 1..Len(Ev.P)}, Ev.id, TRUE), "HARNESS", "measurement_crosscheck", Ev.id))
           /\ CasePost(Ev, cur')
 
@@ -183,10 +208,11 @@ TBatch ==
        IN /\ ((fam.exact /\ RawSmall(Ev.raw)) => Chk(RawOK(Ev, inputs, l, FALSE), "HARNESS", "measurement_crosscheck", l))
           /\ VertexClauses(Ev.vm, l)
           /\ OuterClause(Ev.cover, l)
-          /\ Chk(bad = {}, "C08", "batch_winding", IF bad = {} THEN l ELSE fam.pts[CHOOSE i \in bad : TRUE])
+          /\ Chk(bad = {}, "C08", IF \E j \in 1..K : hist[j].s11 THEN "winding_simple_corners_on_path" ELSE "batch_winding",
+                 IF bad = {} THEN l ELSE fam.pts[CHOOSE i \in bad : TRUE])
           /\ (IF Ev.eqcat = 1 THEN TRUE ELSE Note("EQCAT0", l))
 
-Init == l = 1 /\ fam = <<>> /\ cur = <<>> /\ hist = <<>> /\ stat = <<0, 0, 0, 0, 0, 0, 0>>
+Init == l = 1 /\ fam = <<>> /\ cur = <<>> /\ hist = <<>> /\ stat = <<0, 0, 0, 0, 0, 0, 0, 0>>
 Next == /\ l <= Len(Tr)
         /\ l' = l + 1
         /\ (TFam \/ TCase \/ TBatch)
